@@ -127,7 +127,7 @@ def run(tier, seed):
                 for fk in (("sync", "async") if mode == "async" else ("sync",)):
                     cls = AsyncFaulty if fk == "async" else Faulty
                     bad = cls(k=k, every=(what == "every"), at_shutdown=(what == "shutdown"))
-                    healthy = events.AsyncRecorder() if (mode == "async" and rng.random() < 0.5) else events.Recorder()
+                    healthy = events.AsyncRecorder(yields=rng.choice([1, 2, 3])) if (mode == "async" and rng.random() < 0.5) else events.Recorder()
                     first = rng.random() < 0.7
                     procs = [bad, healthy] if first else [healthy, bad]
                     o, _, _ = predict.try_real(j, event_processors=procs)
@@ -145,6 +145,11 @@ def run(tier, seed):
                     # concurrent nodes of the async runner may emit in another order when a processor
                     # suspends differently: the complete stream = the same multiset of events
                     complete = (shape(healthy.events) == baseline) if mode == "sync" else (sorted(map(str, shape(healthy.events))) == sorted(map(str, baseline)))
+                    marks = [i for i, e in enumerate(healthy.events) if e == events.SHUTDOWN]
+                    if marks != [len(healthy.events) - 1]:
+                        ctx.violation("other-processor-lifecycle", wit,
+                                      f"healthy processor: shutdown marker at positions {marks} of {len(healthy.events)} entries (an event was delivered after its shutdown, or shutdown was not invoked exactly once)")
+                        continue
                     if not complete:
                         ctx.violation("other-processor-stream-incomplete", wit,
                                       f"healthy processor received {len(healthy.events)} events, baseline {len(baseline)} (fault {what} {k}, faulty first={first})")
